@@ -27,7 +27,7 @@ var spot string
 
 var spotlights = map[string][]string{
 	"C01": {"swap-recheck", "other-invoker", "sibling-P", "inv-as-proof", "lookalike", "long-chain", "prov-dlg", "hook-twice", "rootless-after"},
-	"C02": {"self-K", "sibling-K", "alike", "deep", "top-under-one", "long-chain", "reserved", "repeat-cmd", "rawcmd", "widen-back"},
+	"C02": {"self-K", "sibling-K", "alike", "deep", "top-under-one", "long-chain", "reserved", "repeat-cmd", "rawcmd", "widen-back", "bad-utf8"},
 	"C03": {"uslice", "nullopt", "alias", "twin", "sibling-Q", "hook-null", "optional-and", "starstr", "same-selector", "second-args", "below-element"},
 	"C04": {"far-nbf", "sibling-W", "both-bounds", "unbounded-then-bad", "shared-option"},
 	"C05": {"far-exp", "uslice", "prov-inv", "prov-dlg", "hook-twice", "long-chain", "reuse", "starstr", "repeat-cmd", "overlap-args", "churn", "second-args", "below-element"},
@@ -51,6 +51,7 @@ var deepCommands bool
 
 type wgen struct {
 	aliasPlan bool
+	wantBuilt bool      // a check on the constructed objects (never decoded) is wanted after the main check
 	aux       []InvSpec // auxiliary invocations that must exist (and reach the executor) before the main one
 	r         *Rand
 	g         GenCfg
@@ -984,7 +985,7 @@ func genWorld(r *Rand, cfg GenCfg) Plan {
 	switch spot {
 	case "swap-recheck", "other-invoker", "sibling-P", "sibling-K", "sibling-Q", "sibling-W", "prov-dlg", "prov-inv", "hook-twice", "far-exp", "reuse", "rootless-after", "second-args", "churn":
 		conform = true
-	case "self-K", "alike", "top-under-one", "reserved", "rawcmd", "widen-back":
+	case "self-K", "alike", "top-under-one", "reserved", "rawcmd", "widen-back", "bad-utf8":
 		conform, forced = false, "K"
 	case "repeat-cmd", "overlap-args", "shared-option":
 		conform = true
@@ -1272,6 +1273,9 @@ func genWorld(r *Rand, cfg GenCfg) Plan {
 	// --- the main check at Tc
 	g.tickTo(tcNS)
 	g.emit(WStep{Op: "check", Check: mkCheck()})
+	if g.wantBuilt {
+		g.emit(WStep{Op: "check", Check: &CheckSpec{Inv: c.inv.Label, Prov: "all-built"}})
+	}
 	if conform && len(c.inv.Prf) > 0 && len(dl) > 1 && spotWant(r, "swap-recheck", 0.1) {
 		// everything delivered for certain, a clean check (allowed), and then the same invocation
 		// against a store that answers one call with another delegation it holds, or not at all
@@ -1714,6 +1718,27 @@ func (g *wgen) deviateK(c *chain) {
 		// command the leaf does not cover
 		c.inv.Cmd = nc
 		g.note("K:" + kind + "@inv")
+		return
+	}
+	if P := c.dlgs[k-1].Cmd; P != "/" && !strings.HasPrefix(P, cmdBytesPrefix) && (sp == "bad-utf8" || r.Chance(0.06)) {
+		// commands that are not valid UTF-8 (only tokens kept in memory can hold them: no decoder
+		// accepts one): the grant above ends in byte 0xFE, everything below continues with 0xFF in
+		// its place - other bytes, another command - and is invoked as such
+		for i := 0; i < k; i++ {
+			if c.dlgs[i].Cmd == P {
+				c.dlgs[i].Cmd = cmdBytes(P + "\xfe")
+			}
+		}
+		for i := k; i < n; i++ {
+			if strings.HasPrefix(c.dlgs[i].Cmd, P) && !strings.HasPrefix(c.dlgs[i].Cmd, cmdBytesPrefix) {
+				c.dlgs[i].Cmd = cmdBytes(P + "\xff" + c.dlgs[i].Cmd[len(P):])
+			}
+		}
+		if strings.HasPrefix(c.inv.Cmd, P) {
+			c.inv.Cmd = cmdBytes(P + "\xff" + c.inv.Cmd[len(P):])
+		}
+		g.wantBuilt = true
+		g.note(fmt.Sprintf("K:bad-utf8@%d/%d", k, n))
 		return
 	}
 	if sp == "widen-back" {
